@@ -131,4 +131,4 @@ impl RateLimit {
 
 #[cfg(feature = "breard_r_acmed_verif")]
 #[path = "/verif/probe/endpoint_probe.rs"]
-mod verif;
+pub(crate) mod verif;
